@@ -187,7 +187,8 @@ func (c *planController) snapshot() string {
 
 // SnapshotFile renders mode and content hash of a file ("absent" if missing).
 func SnapshotFile(path string) string {
-	st, err := os.Lstat(path)
+	// follows symbolic links: the snapshot is of what the path holds
+	st, err := os.Stat(path)
 	if err != nil {
 		return "absent"
 	}
